@@ -157,6 +157,11 @@ impl LmSpec {
             let (lo, hi) = self.vars[i].1.bounds();
             lp.lb[i] = if lo.is_finite() { Some(qf(lo)) } else { None };
             lp.ub[i] = if hi.is_finite() { Some(qf(hi)) } else { None };
+            // a lower bound of +inf / upper bound of -inf (or NaN) admits no value
+            if lo == f64::INFINITY || hi == f64::NEG_INFINITY || lo.is_nan() || hi.is_nan() {
+                lp.lb[i] = Some(q(1));
+                lp.ub[i] = Some(q(0));
+            }
             lp.int[i] = self.vars[i].1.is_int();
         }
         lp.offset = qf(self.offset);
